@@ -590,7 +590,7 @@ func (env *Env) call(e *ast.CallExpr) TV {
 				return env.fail("typeIs(x, T)")
 			}
 			return boolTV(Eq(a.Tag, IntLit(x.eng.typeTag(t))))
-		case "uf":
+		case "uf", "ufs":
 			// uf("name", x...): uninterpreted integer function of the (interface/ref/int) arguments
 			lit, ok := args[0].(*ast.BasicLit)
 			if !ok {
@@ -613,6 +613,11 @@ func (env *Env) call(e *ast.CallExpr) TV {
 					ts = append(ts, t)
 					sorts = append(sorts, t.Sort)
 				}
+			}
+			if id.Name == "ufs" {
+				// string-valued uninterpreted function
+				f := x.vc.Fun("ufs|"+name, sorts, SStr)
+				return TV{VTerm{app(SStr, f, ts...)}, types.Typ[types.String]}
 			}
 			f := x.vc.Fun("uf|"+name, sorts, SInt)
 			return TV{VTerm{app(SInt, f, ts...)}, nil}
